@@ -19,6 +19,7 @@ from usim._core.handler import __USIM_STATE__
 from usim._primitives.task import Task
 from usim._primitives.context import Scope as _ScopeClass
 
+from harness import watch
 from harness.faultlib3 import zlit, coq_bool, run_case_chunks, patched, ActivationCounter
 
 COQ_FILES = ['props/C06.v']
@@ -840,8 +841,69 @@ def prestart_cancel(ctx, n):
                          'ended with %r; expected %r and a normal end' % (logs, info['final'], want), family='prestart-cancel')
 
 
+def self_cancel(ctx, n):
+    """directed family (direct API): a task cancels ITSELF through its own handle (or reads its own status) while it is the
+    executing activity.  From the text: it is running - status RUNNING, not created, not done; the cancellation is raised
+    inside it at its next suspension point in the same time step; awaiters get TaskCancelled(task, token); nothing behind
+    that suspension point runs; the parent scope and the siblings are not disturbed"""
+    import usim
+    from usim import time, TaskState, TaskCancelled
+    for _ in range(n):
+        d0 = ctx.rng.choice([0, 1, 3])
+        tok = ctx.rng.choice([5, 'stop'])
+        case = {'self_cancel': dict(after=d0, token=tok)}
+        log, holder = [], []
+
+        async def victim():
+            if d0:
+                await (time + d0)
+            me = holder[0]
+            log.append(('status before', me.status, bool(me.done)))
+            me.cancel(tok)
+            log.append(('status after cancel', me.status, bool(me.done)))
+            try:
+                await (time + 5)
+                log.append(('resumed', time.now))
+            except BaseException as e:   # noqa
+                log.append(('raised', type(e).__name__, time.now))
+                raise
+            log.append(('went on', time.now))
+
+        async def sibling():
+            await (time + (d0 + 2))
+            log.append(('sibling', time.now))
+
+        async def main():
+            async with usim.Scope() as scope:
+                holder.append(scope.do(victim()))
+                scope.do(sibling())
+                try:
+                    await holder[0]
+                    log.append(('awaiter got a result', time.now))
+                except TaskCancelled as e:
+                    log.append(('awaiter', e.subject is holder[0], e.args == (tok,), time.now))
+                await (time + 3)
+                log.append(('body', time.now))
+            log.append(('final status', holder[0].status, bool(holder[0].done)))
+        try:
+            watch.run(main())
+        except BaseException as e:   # noqa
+            ctx.fail(case, 'a task that cancels itself: run() raised %r after %r' % (e, log), family='self-cancel')
+            continue
+        ctx.count(case, nontrivial=True)
+        ctx.bump('family:self-cancel')
+        want = [('status before', TaskState.RUNNING, False), ('status after cancel', TaskState.RUNNING, False),
+                ('raised', 'CancelTask', d0), ('sibling', d0 + 2), ('body', d0 + 3), ('final status', TaskState.CANCELLED, True)]
+        got = [x for x in log if x[0] != 'awaiter']
+        aw = [x for x in log if x[0] == 'awaiter']
+        if got != want or len(aw) != 1 or aw[0][1:] != (True, True, d0):
+            ctx.fail(case, 'a task that cancels itself through its own handle at %r: observed %r, expected %r and one awaiter '
+                           'receiving TaskCancelled(task, ...) at %r' % (d0, log, want, d0), family='self-cancel')
+
+
 def run(ctx):
     _run_vertical(ctx)
+    self_cancel(ctx, ctx.n(6, 60))
     cancel_nested(ctx, ctx.n(30, 400))
     prestart_cancel(ctx, ctx.n(30, 400))
     cancel_in_borrow(ctx, ctx.n(30, 400))
